@@ -21,14 +21,14 @@ def gen_abstract(rng):
     files = {}
     names = ["src/mod.py", "README.md", "docs/conf.py", "notes.txt", "lib/__init__.py"]
     for fn in rng.sample(names, nfiles):
-        files[fn] = rng.sample(["{version}", "{pep440_version}", '__version__ = "{version}"', "Copyright (c) YYYY", 'release = "{pep440_version}"'], rng.randint(1, 3))
+        files[fn] = rng.sample(["{version}", "{pep440_version}", '__version__ = "{version}"', "Copyright (c) YYYY", 'release = "{pep440_version}"', "badge/v{version}%20ok"], rng.randint(1, 3))
     commit = rng.choice([None, True, False])
     tag = rng.choice([None, True, False]) if commit else rng.choice([None, False])
     push = rng.choice([None, True, False]) if commit else rng.choice([None, False])
     return dict(
         current_version=rng.choice(["2020.1001-alpha", "2021.1042", "2019.11000-rc"]),
         version_pattern="YYYY.BUILD[-TAG]",
-        commit_message=rng.choice([None, "bump {old_version} -> {new_version}", "release {new_version}"]),
+        commit_message=rng.choice([None, "bump {old_version} -> {new_version}", "release {new_version}", "release {new_version} (100% done)"]),
         tag_message=rng.choice([None, "{new_version}", "v {new_version}"]),
         tag_scope=rng.choice(SCOPES),
         commit=commit,
@@ -42,7 +42,10 @@ def gen_abstract(rng):
 def render_ini(K, rng, section="bumpver"):
     q = lambda s: rng.choice([s, f'"{s}"', f"'{s}'"])
     b = lambda v: rng.choice(BOOL_SPELLINGS[v])
-    out = [f"[{section}]", f"current_version = {q(K['current_version'])}", f"version_pattern = {q(K['version_pattern'])}"]
+    out = []
+    if rng.random() < 0.4:
+        out += ["[metadata]", "name = demo", ""]
+    out += [f"[{section}]", f"current_version = {q(K['current_version'])}", f"version_pattern = {q(K['version_pattern'])}"]
     for k in ("commit_message", "tag_message", "tag_scope"):
         if K[k] is not None:
             out.append(f"{k} = {q(K[k])}")
@@ -52,6 +55,9 @@ def render_ini(K, rng, section="bumpver"):
     out.append("")
     out.append(f"[{section}:file_patterns]")
     for fn, pats in files_of(K).items():
+        if len(pats) == 1 and rng.random() < 0.5:
+            out.append(f"{fn} = {pats[0]}")  # the pattern on the same line as the file name
+            continue
         out.append(f"{fn} =")
         for p in pats:
             out.append("    " + p)
@@ -61,7 +67,10 @@ def render_ini(K, rng, section="bumpver"):
 def render_toml(K, rng, section="bumpver"):
     b = lambda v: "true" if v else "false"
     qs = lambda s: '"' + s.replace("\\", "\\\\").replace('"', '\\"') + '"'
-    out = [f"[{section}]", f"current_version = {qs(K['current_version'])}", f"version_pattern = {qs(K['version_pattern'])}"]
+    out = []
+    if rng.random() < 0.4:
+        out += ["[tool.black]", "line-length = 100", ""]  # unrelated tables of other tools share the file
+    out += [f"[{section}]", f"current_version = {qs(K['current_version'])}", f"version_pattern = {qs(K['version_pattern'])}"]
     for k in ("commit_message", "tag_message", "tag_scope"):
         if K[k] is not None:
             out.append(f"{k} = {qs(K[k])}")
